@@ -514,12 +514,15 @@ fn main() {
                         let touched: &[&[u8]] = if *stream { &[b"Type", b"Size", b"W", b"Index", b"Filter", b"Length"] } else { &[b"Size"] };
                         let rest = |d: &Document| -> Vec<(Vec<u8>, Object)> { d.trailer.iter().filter(|(k, _)| !touched.contains(&k.as_slice())).map(|(k, v)| (k.clone(), v.clone())).collect() };
                         ck.req(n, rest(&before) == rest(&doc), || "save changed a trailer entry that is not cross-reference bookkeeping".into());
+                        // save_internal first raises max_id to the largest object number (also when it then fails)
+                        let raised = before.objects.keys().map(|k| k.0).max().map_or(before.max_id, |t| t.max(before.max_id));
                         if out.is_id("ok") {
-                            ck.req(n, doc.max_id == before.max_id + if *stream { 1 } else { 0 }, || "save: max_id is not the old one (+1 for the cross-reference stream object)".into());
+                            ck.req(n, doc.max_id == raised + if *stream { 1 } else { 0 }, || "save: max_id is not max(old max_id, largest object number) (+1 for the cross-reference stream object)".into());
                             ck.req(n, doc.trailer.get(b"Size").and_then(Object::as_i64).ok() == Some(doc.max_id as i64 + 1), || "save: trailer Size is not max_id + 1".into());
                         } else if !panicked {
-                            ck.req(n, before.trailer == doc.trailer && before.max_id == doc.max_id, || "a failed save changed the document".into());
+                            ck.req(n, before.trailer == doc.trailer && doc.max_id == raised, || "a failed save changed the document beyond raising max_id".into());
                         }
+                        ck.req(n, alloc_inv(&doc), || "after save max_id is below an object number in use".into());
                     }
                 }
                 Op::New | Op::Add(_) => {
